@@ -279,6 +279,12 @@ def flush_functions(ctx: Ctx, attr: str = "set_messages") -> list[FuncInfo]:
                 if fi is not f and any(is_send(n) for n in ctx.own_nodes(fi) if isinstance(n, ast.stmt)):
                     out.append(fi)
             continue
+        if f.nested and any(_reads_direct(ctx, g_, attr) for g_ in f.nested.values()):
+            # the snapshot / the forgetting live in nested helper functions of the flush: judged written out
+            fi = ctx.inl(f)
+            if fi is not f and _reads_direct(ctx, fi, attr):
+                out.append(fi)
+                continue
         if _reads_direct(ctx, f, attr) or helper_calls(ctx, f, "reads", attr):
             out.append(f)
     return out
